@@ -178,6 +178,8 @@ class C18(Check):
             if w.err is not None or not w.done:
                 mech = 'csv-dump-to-file-encoding-none' if enc is None else None
                 return out.fail('dump_to_file-failed', mech=mech, error=repr(w.err), done=w.done, encoding=enc)
+            if not os.path.exists(path):
+                return out.fail('dump_to_file-completed-without-creating-the-file', rows=len(rows), encoding=enc)
             size = os.path.getsize(path)
             out.observed['file_bytes'] += size
             if size > 65536:
